@@ -356,7 +356,11 @@ class HistogramBase(abc.ABC):
         if self._errors2 is not None:
             self._errors2 = self._errors2.astype(value)
         if self._missed is not None:
-            self._missed = self._missed.astype(value)
+            self._missed = self._missed.astype(self._missed_dtype(value))
+
+    def _missed_dtype(self, dtype: np.dtype) -> np.dtype:
+        """Type of the missed counters for a given type of the bin contents."""
+        return dtype
 
     def _coerce_dtype(self, other_dtype: DTypeLike) -> None:
         """Possibly change the bin content type to allow correct operations with other operand.
@@ -961,7 +965,9 @@ class HistogramBase(abc.ABC):
                 self.errors2 = (adapted_self.errors2 + adapted_other.errors2).astype(
                     self.dtype
                 )
-                self._missed = (self._missed - other._missed).astype(self.dtype)
+                self._missed = (self._missed - other._missed).astype(
+                    self._missed_dtype(self.dtype)
+                )
             self._stats = INVALID_STATISTICS
             return self
         array = np.asarray(other)
